@@ -609,7 +609,7 @@ class Collection:
                 {
                     "name": name,
                     "help": helpline(x),
-                    "aliases": [self.transform(y) for y in x.aliases],
+                    "aliases": list(self.tasks.aliases_of(name)),
                 }
                 for name, x in sorted(self.tasks.items())
             ],
